@@ -3,6 +3,9 @@ CONSTANTS
   MaxN = 14
   MaxF = 4
   Kinds <- Both
+  MaxRenders = 2
+  MemoByFile = FALSE
 INVARIANT SnippetP
 INVARIANT FramesP
+INVARIANT HistoryP
 INVARIANT Emit
